@@ -439,6 +439,21 @@ class SpecMixin:
         if name == 'freshobj':     # the array was allocated by this call
             x = self.sev(env, args[0])
             return z3.BoolVal(bool(getattr(x, 'isfresh', False)))
+        if name == 'typeis':       # typeis(x, "T"): the dynamic type of the interface value x is T (as printed by go/types)
+            x = self.sev(env, args[0])
+            tn = args[1][1].decode() if isinstance(args[1][1], bytes) else args[1][1]
+            if not isinstance(x, IfaceV):
+                raise Unsupported('typeis on a value that is not an interface')
+            cache = self.__dict__.setdefault('_tids_by_string', {})
+            if tn not in cache:
+                for tid in range(len(self.tt.t)):
+                    if self.tt[tid].get('s') == tn:
+                        cache[tn] = tid; break
+                else:
+                    raise Unsupported('typeis: no type printed as %s in the type table' % tn)
+            if x.tag is None:
+                raise Unsupported('typeis: interface value without a dynamic type tag')
+            return z3.And(x.ref != 0, x.tag == self.type_tag(cache[tn]))
         if name == 'asptr':        # asptr(r, "pkg.Type"): the pointer to the object with reference r, typed *pkg.Type
             r = self.sev(env, args[0])
             tn = args[1][1].decode() if isinstance(args[1][1], bytes) else args[1][1]
